@@ -3,6 +3,7 @@ package core
 import (
 	"encoding/json"
 	"fmt"
+	mrand "math/rand"
 	"os"
 	"path/filepath"
 	"runtime"
@@ -13,6 +14,7 @@ import (
 	"testing"
 	"testing/synctest"
 	"time"
+	_ "unsafe" // go:linkname
 )
 
 // Schedule is an explicit, JSON-serialisable list of steps and faults plus the
@@ -81,6 +83,9 @@ type Spec struct {
 	Decode func(raw json.RawMessage) (Schedule, error)
 	// Exec runs the schedule; it is called inside a fresh synctest bubble.
 	Exec func(s Schedule) *Outcome
+	// ExecArtifacts, if set, re-runs the failing oracle on the artifacts stored in a replay file (e.g. a
+	// durable disk image), independently of whether re-execution reaches the same state. Called in a bubble.
+	ExecArtifacts func(s Schedule, artifacts map[string]any) *Outcome
 	// Rule documents generation and the non-trivial criterion (for evidence).
 	Rule string
 	Real []string
@@ -92,6 +97,7 @@ type Spec struct {
 	RequiredProbes []string
 	Assumptions    []string
 	nexec          int
+	rtSeed         uint64
 }
 
 type replayFile struct {
@@ -150,6 +156,22 @@ type WorkerResult struct {
 	Assumptions []string          `json:"assumptions"`
 	Inconcl     int               `json:"inconclusive"`
 }
+
+// runtimeVerifSeed reseeds the patched runtime's random source and switches sysmon's retake off (only the
+// harness build's runtime overlay defines it, see ./check build).
+//
+//go:linkname runtimeVerifSeed runtime.verifSeed
+func runtimeVerifSeed(seed uint64, noRetake bool)
+
+// RuntimeDraws is the number of values the runtime drew from its random source since the run started.
+//
+//go:linkname RuntimeDraws runtime.verifDraws
+func RuntimeDraws() uint64
+
+// RuntimeTraceCallers switches recording of who draws from the runtime's random source (divergence hunting).
+//
+//go:linkname RuntimeTraceCallers runtime.verifTraceCallers
+func RuntimeTraceCallers(on bool) []uintptr
 
 // RunSeed derives the seed of run i of a batch.
 func RunSeed(batch uint64, prop string, i int) uint64 {
@@ -215,14 +237,50 @@ var PanicProp = map[string]bool{}
 func (sp *Spec) execOnce(t *testing.T, s Schedule) *Outcome {
 	// No collection during a run (finalizers of abandoned snapshot contexts must not fire at
 	// arbitrary points) unless memory gets tight.
+	// Collections happen between runs only, at the harness' request (memory limit aside): a cycle running
+	// into a run scans and shrinks stacks at arbitrary points.
 	debug.SetMemoryLimit(3 << 30)
-	gcOld := debug.SetGCPercent(-1)
+	debug.SetGCPercent(-1)
+	if sp.nexec == 0 {
+		runtime.GC() // completes whatever cycle process start-up began
+	}
+	// the runtime's own randomness (select among ready cases, order of bubble timers with equal deadlines,
+	// map iteration) is part of the schedule: one run seed, one sequence (patched runtime, DESIGN 10.6)
+	runtimeVerifSeed(Mix(sp.rtSeed, 0x72756e74696d65), runtime.GOMAXPROCS(0) == 1)
+	// the package-level math/rand source (jitter in regatta, gRPC, memberlist) starts every run from the run
+	// seed; needs //go:debug randautoseed=0 and randseednop=0 in the test main package
+	mrand.Seed(int64(Mix(sp.rtSeed, 0x6d72616e64))) //nolint:staticcheck
+	if os.Getenv("VERIF_LOG") == "4" {
+		mrand.VerifHook = func() {
+			var pcs [6]uintptr
+			n := runtime.Callers(3, pcs[:])
+			fr := runtime.CallersFrames(pcs[:n])
+			line := "MRAND " + time.Now().Format("04:05.000")
+			for {
+				f, more := fr.Next()
+				line += fmt.Sprintf(" %s:%d", f.Function, f.Line)
+				if !more {
+					break
+				}
+			}
+			fmt.Fprintln(os.Stderr, line)
+		}
+	}
+	if os.Getenv("VERIF_LOG") == "3" {
+		RuntimeTraceCallers(true)
+		defer func() {
+			for i, pc := range RuntimeTraceCallers(false) {
+				f := runtime.FuncForPC(pc)
+				file, line := f.FileLine(pc)
+				fmt.Fprintf(os.Stderr, "DRAW %d %s %s:%d\n", i, f.Name(), filepath.Base(file), line)
+			}
+		}()
+	}
 	out, pv, stack := ExecInBubble(t, func() *Outcome { return sp.Exec(s) })
-	debug.SetGCPercent(gcOld)
 	// Two collections empty every sync.Pool: pooled objects that embed channels
 	// (Pebble's sstable write tasks) must never travel from one bubble to the next.
 	sp.nexec++
-	if !sp.LightRuns || sp.nexec%512 == 0 {
+	if !sp.LightRuns || sp.nexec%64 == 0 {
 		runtime.GC()
 		runtime.GC()
 	}
@@ -301,12 +359,26 @@ func (sp *Spec) replay(t *testing.T) {
 	if err != nil {
 		t.Fatalf("replay decode: %v", err)
 	}
+	sp.rtSeed = RunSeed(rf.Seed, sp.Prop, rf.Run)
 	out := sp.execOnce(t, s)
 	res := map[string]any{"reproduced": false}
 	if out.Violation != nil {
 		res["violation"] = out.Violation
 		res["reproduced"] = out.Violation.Prop == rf.Prop && out.Violation.Oracle == rf.Oracle
 		res["same_signature"] = out.Violation.Sig == rf.Sig
+	}
+	if res["reproduced"] != true && sp.ExecArtifacts != nil && len(rf.Artifacts) > 0 {
+		// the execution did not reach the same state (e.g. a background flush landed elsewhere): the
+		// stored artifact pins the violation exactly
+		ao, pv, _ := ExecInBubble(t, func() *Outcome { return sp.ExecArtifacts(s, rf.Artifacts) })
+		runtime.GC()
+		runtime.GC()
+		if pv == nil && ao != nil && ao.Violation != nil {
+			res["violation"] = ao.Violation
+			res["reproduced"] = ao.Violation.Prop == rf.Prop && ao.Violation.Oracle == rf.Oracle
+			res["same_signature"] = ao.Violation.Sig == rf.Sig
+			res["reproduced_from_artifact"] = true
+		}
 	}
 	res["digest"] = fmt.Sprintf("%016x", out.Digest)
 	b, _ := json.MarshalIndent(res, "", " ")
@@ -351,6 +423,7 @@ func (sp *Spec) batch(t *testing.T) {
 		}
 		i := first + k*stride
 		rs := RunSeed(seed, sp.Prop, i)
+		sp.rtSeed = rs
 		s := sp.Gen(NewRand(rs), tier)
 		raw, err := json.Marshal(s)
 		if err != nil {
